@@ -304,8 +304,11 @@ func runC07(o *hx.Out, r *hx.Rand, thorough bool) {
 			sk = "SS"
 		}
 		o.Begin(map[string]interface{}{"side": "server", "single_request": single, "body_hex": hex.EncodeToString(body), "abrupt": abrupt})
-		msgs, fin, p := runServerBody(sk, body, abrupt)
-		desc := map[string]interface{}{"side": "server", "single_request": single, "body_hex": hex.EncodeToString(body), "abrupt": abrupt,
+		var msgs [][]byte
+		var fin int64
+		var p interface{}
+		used := alloc(func() { msgs, fin, p = runServerBody(sk, body, abrupt) })
+		desc := map[string]interface{}{"side": "server", "single_request": single, "allocated": used, "body_hex": hex.EncodeToString(body), "abrupt": abrupt,
 			"delivered": hexStrs(msgs), "final": fin}
 		if len(body) > 400 {
 			desc["body_hex"] = hex.EncodeToString(body[:200]) + "...(" + fmt.Sprint(len(body)) + " bytes)"
@@ -314,6 +317,9 @@ func runC07(o *hx.Out, r *hx.Rand, thorough bool) {
 		if p != nil {
 			nPanic++
 			o.Violate("server decoder panicked", desc, fmt.Sprint(p), nil)
+		}
+		if used > allocLimit {
+			o.Violate("the server (a handler from httpgrpc.HandleStream) allocated far more than the per-message limit on the strength of a length prefix", desc, used, allocLimit)
 		}
 		o.Case(kind, fmt.Sprintf("Srv %s %s %s %s %s", hx.B(single), hx.Hex(body), hx.B(abrupt), hexList(msgs), hx.Z(fin)), desc)
 	}
